@@ -1,5 +1,6 @@
 import Lean.Data.Json
 import GtfsVerif.Model.Basic
+import GtfsVerif.Model.Zone
 /-! JSON-lines protocol helpers for the driver. Byte strings travel as JSON strings whose code
     points are the byte values (Latin-1 style), so every byte string is representable. -/
 open Lean
@@ -51,5 +52,14 @@ def getList {α} (f : Json → R α) (j : Json) (k : String) : R (List α) :=
   match fieldOpt j k with | none => pure [] | some v => asList f v
 def getOpt {α} (f : Json → R α) (j : Json) (k : String) : R (Option α) :=
   match fieldOpt j k with | none => pure none | some v => do return some (← f v)
+
+/-- {"first":o, "trans":[[instant, offset]…], "loDay":…, "hiDay":…} -/
+def tableOf (j : Json) : R Zone.Table := do
+  let pair (e : Json) : R (Int × Int) := do
+    match ← asList asInt e with
+    | [a, b] => pure (a, b)
+    | _ => throw "zone transition: expected [instant, offset]"
+  return { zone := { first := ← getIntD j "first" 0, trans := ← getList pair j "trans" },
+           loDay := ← getOpt asInt j "loDay", hiDay := ← getOpt asInt j "hiDay" }
 
 end Gtfs.Proto
